@@ -132,3 +132,78 @@ def cfg_sha256_p3(s0: int, s1: int, s2: int) -> bool:
     post: _
     """
     return _cfg('sha256', 3, s0, s1, s2)
+
+
+def _packid(n0, n1, n2, e, target, cached, known, kv):
+    """_get_pack_id_to_write_to over up to three existing packs of symbolic sizes, a symbolic cached id (None or any id
+    not above the first non-full pack: what every earlier call leaves behind) and a symbolic known_sizes entry."""
+    w = make_world(target)
+    try:
+        sizes = [n0, n1, n2][:e]
+        for pid in range(e):
+            w.set_pack(pid, [('junk', pid, sizes[pid])])
+        first = e
+        for pid in range(e):
+            if sizes[pid] < target:
+                first = pid
+                break
+        if cached > first:
+            return True  # not a state an earlier call can leave
+        w.c._current_pack_id = None if cached < 0 else cached
+        ks = None
+        eff = list(sizes)
+        if known >= 0 and known < e:
+            ks = {known: kv}
+            eff[known] = kv
+        got = w.c._get_pack_id_to_write_to(known_sizes=ks)
+        want = e
+        for pid in range(max(cached, 0), e):
+            if eff[pid] < target:
+                want = pid
+                break
+        return got == want and w.c._current_pack_id == want
+    finally:
+        w.cleanup()
+
+
+def packid_spec(n0: int, n1: int, n2: int, e: int, target: int, cached: int, known: int, kv: int) -> bool:
+    """
+    pre: 0 <= n0 <= 1000 and 0 <= n1 <= 1000 and 0 <= n2 <= 1000 and 0 <= e <= 3 and 1 <= target <= 1000
+    pre: -1 <= cached <= 3 and -1 <= known <= 3 and 0 <= kv <= 1000
+    post: _
+    """
+    return _packid(n0, n1, n2, e, target, cached, known, kv)
+
+
+def _bulk_pack(s0, s1, s2, in_max, chunk_max, clean):
+    """pack_all_loose / clean_storage with symbolic lookup-strategy thresholds: obj0 loose, obj1 loose AND packed,
+    obj2 packed; the result must be the one of the default strategy (C16)."""
+    w = make_world(10**9)
+    try:
+        w.set_pack(0, [('junk', 0, 1), ('obj', 1, s1), ('obj', 2, s2)])
+        w.put_loose(0, s0)
+        w.put_loose(1, s1)
+        w.c._IN_SQL_MAX_LENGTH = in_max
+        w.c._MAX_CHUNK_ITERATE_LENGTH = chunk_max
+        objs = objs_map(w, [(0, s0), (1, s1), (2, s2)])
+        w.c.pack_all_loose(clean_loose_per_pack=clean)
+        img = w.image()
+        if not inv_ok(img, w, objs) or len(img.rows()) != 3:
+            return False
+        if len(img.pack_data(0)) != 1 + s1 + s2 + s0:  # obj1 was already packed: not written again
+            return False
+        w.c.clean_storage()
+        img = w.image()
+        if len(img.loose_keys()) != 0 or not inv_ok(img, w, objs):
+            return False
+        return views_ok(w.c, w, objs, 'b' * 64)
+    finally:
+        w.cleanup()
+
+
+def bulk_pack(s0: int, s1: int, s2: int, in_max: int, chunk_max: int, clean: bool) -> bool:
+    """
+    pre: 1 <= s0 <= 1000 and 1 <= s1 <= 1000 and 1 <= s2 <= 1000 and 1 <= in_max <= 2 and 0 <= chunk_max <= 3
+    post: _
+    """
+    return _bulk_pack(s0, s1, s2, in_max, chunk_max, clean)
